@@ -42,7 +42,9 @@ def one(c, pvk, table, dg, pan, off, ln, pad):
 
 
 def generate(rng, tier, seed):
-    tables = ["0123456789012345", "1234567890123456", "9876543210987654", "0000000000000000", "8351296477461538"]
+    tables = ["0123456789012345", "1234567890123456", "9876543210987654", "0000000000000000", "8351296477461538",
+              # the customary table's first ten digits with another tail; its tail with another head; near misses of it
+              "0123456789543210", "0123456789999999", "0123456789" + digits(rng, 6), "9876543210012345", digits(rng, 10) + "012345", "0123456789012346", "1123456789012345"]
     for plen in range(0, 20):
         pan = digits(rng, plen)
         for start in range(0, plen + 1):
